@@ -263,3 +263,122 @@ func ruleParserAlias(c *Ctx) {
 		c.ok("P-ALIAS", "internal/parser", "no address of a parser field leaves the parser", token.NoPos, "field addresses judged: "+itoa(seenAddr))
 	}
 }
+
+// ruleStaleIndex (S-STALE): an offset found by searching one string is an offset into THAT string.  Reported: a
+// string slice x[:i] / x[i:] (i the result of strings.Index* / LastIndex* on y, plus or minus a constant) where x is
+// not y but what is left of y after a prefix was removed on some path (a re-slice with a lower bound, TrimSpace,
+// TrimLeft, TrimPrefix, Trim): the offsets of x are shifted against those of y, so the cut is made at the wrong place
+// and - when the match lay near the end of y - behind the end of x: slice bounds out of range, and nothing recovers
+// (C06-m28: the comment's `;` looked up before the `(code)` prefix is stripped and used after it).
+func ruleStaleIndex(c *Ctx) {
+	if c.ranOnce("ruleStaleIndex") {
+		return
+	}
+	n, judged := 0, 0
+	prefixCut := map[string]bool{"TrimSpace": true, "TrimLeft": true, "TrimPrefix": true, "Trim": true, "TrimLeftFunc": true, "TrimFunc": true, "CutPrefix": true}
+	suffixCut := map[string]bool{"TrimRight": true, "TrimSuffix": true, "TrimRightFunc": true}
+	for _, f := range c.P.ModuleFuncs() {
+		for _, b := range f.Blocks {
+			for _, ins := range b.Instrs {
+				sl, ok := ins.(*ssa.Slice)
+				if !ok {
+					continue
+				}
+				if bt, ok := sl.X.Type().Underlying().(*types.Basic); !ok || bt.Info()&types.IsString == 0 {
+					continue
+				}
+				for _, bound := range []ssa.Value{sl.Low, sl.High} {
+					if bound == nil {
+						continue
+					}
+					call := exactIndexCall(bound)
+					if call == nil || len(call.Call.Args) == 0 {
+						continue
+					}
+					judged++
+					y := stripConv(call.Call.Args[0])
+					x := stripConv(sl.X)
+					if x == y || sameLoad(x, y) {
+						continue
+					}
+					// is x what is left of y after a prefix was removed on some path?
+					seen := map[ssa.Value]bool{}
+					var reach func(v ssa.Value, removed bool, depth int) bool
+					reach = func(v ssa.Value, removed bool, depth int) bool {
+						v = stripConv(v)
+						if v == y || sameLoad(v, y) {
+							return removed
+						}
+						if depth > 8 || (seen[v] && !removed) {
+							return false
+						}
+						seen[v] = true
+						switch w := v.(type) {
+						case *ssa.Phi:
+							for _, e := range w.Edges {
+								if reach(e, removed, depth+1) {
+									return true
+								}
+							}
+						case *ssa.Slice:
+							rm := removed
+							if w.Low != nil {
+								if k, ok := w.Low.(*ssa.Const); !ok || k.Value == nil || k.Value.ExactString() != "0" {
+									rm = true
+								}
+							}
+							return reach(w.X, rm, depth+1)
+						case *ssa.Call:
+							cal := w.Call.StaticCallee()
+							if cal != nil && cal.Pkg != nil && cal.Pkg.Pkg.Path() == "strings" && len(w.Call.Args) > 0 {
+								if prefixCut[cal.Name()] {
+									return reach(w.Call.Args[0], true, depth+1)
+								}
+								if suffixCut[cal.Name()] {
+									return reach(w.Call.Args[0], removed, depth+1)
+								}
+							}
+						case *ssa.Extract:
+							if cl, ok := w.Tuple.(*ssa.Call); ok && w.Index == 0 {
+								cal := cl.Call.StaticCallee()
+								if cal != nil && cal.Pkg != nil && cal.Pkg.Pkg.Path() == "strings" && cal.Name() == "CutPrefix" && len(cl.Call.Args) > 0 {
+									return reach(cl.Call.Args[0], true, depth+1)
+								}
+							}
+						}
+						return false
+					}
+					if reach(x, false, 0) {
+						n++
+						c.finding("S-STALE", funcName(f), "an offset found in one string cuts what is left of it after a prefix was removed", sl.Pos(),
+							"the bound of this slice is the result of strings."+call.Call.StaticCallee().Name()+" on a string of which the sliced string is a remainder (a prefix was cut or trimmed off in between, on some path): the offset is stale - the cut lands behind the intended place, and behind the end of the shortened string when the match lay near the end, which is a slice-bounds panic that nothing recovers from")
+					}
+				}
+			}
+		}
+	}
+	if n == 0 {
+		c.ok("S-STALE", "module", "no search offset applied to a remainder of the searched string", token.NoPos, "slice bounds that are search results: "+itoa(judged))
+	}
+}
+
+// exactIndexCall: v is the result of strings.Index*/LastIndex*, plus or minus a constant.
+func exactIndexCall(v ssa.Value) *ssa.Call {
+	v = stripConv(v)
+	switch x := v.(type) {
+	case *ssa.Call:
+		if isIndexResult(x) && x.Call.StaticCallee().Pkg.Pkg.Path() == "strings" {
+			return x
+		}
+	case *ssa.BinOp:
+		if x.Op == token.ADD || x.Op == token.SUB {
+			if _, ok := x.Y.(*ssa.Const); ok {
+				return exactIndexCall(x.X)
+			}
+			if _, ok := x.X.(*ssa.Const); ok && x.Op == token.ADD {
+				return exactIndexCall(x.Y)
+			}
+		}
+	}
+	return nil
+}
